@@ -18,7 +18,7 @@ import warnings
 import numpy as np
 from hypothesis import given, strategies as st
 
-from jaxtyping import Shaped, TypeCheckError, jaxtyped
+from jaxtyping import PyTree, Shaped, TypeCheckError, jaxtyped
 from vf import obs
 from vf.core import Violation
 from vf.gen import calls as gc
@@ -44,6 +44,11 @@ class Boom(BaseException):
     pass
 
 
+class _Suspend:
+    def __await__(self):
+        yield None
+
+
 EXCS = {
     "ValueError": ValueError,
     "KeyboardInterrupt": KeyboardInterrupt,
@@ -53,6 +58,9 @@ EXCS = {
     "RuntimeError": RuntimeError,
 }
 P = Shaped[np.ndarray, "p"]
+# return annotations over names that only the BODY binds (by a manual isinstance check): body and return check share one context
+RET_AXIS = Shaped[np.ndarray, "p vfret"]
+RET_STRUCT = PyTree[int, "VfS"]
 KINDS = ["new-typeguard", "new-beartype", "old-typeguard", "none", "method", "dataclass", "context", "new-typeguard", "old-beartype", "context-shared", "context-shared",
          "plain-typeguard", "plain-beartype"]  # plain-*: new-style checker, but no jaxtyping annotation in the signature
 EXITS = ["return", "return", "exc", "exc", "bad-param", "bad-return"]
@@ -140,6 +148,7 @@ class Interp:
             exit_ = "return"
         if kind == "dataclass" and exit_ == "bad-return":
             exit_ = "return"
+        retbody = n.get("retbody") if (exit_ == "return" and (kind.startswith("new-") or kind == "method")) else None
         exc_obj = EXCS[n["exc"]]("from body") if exit_ == "exc" else None
         interp = self
         entered = []
@@ -153,6 +162,11 @@ class Interp:
             interp.run(n["body"])
             if exc_obj is not None:
                 raise exc_obj
+            if retbody is not None:
+                # the last thing the body does: the first use of a name that the return annotation mentions
+                ok = isinstance(np.zeros((5,)), Shaped[np.ndarray, "vfret"]) if retbody.startswith("axis") else isinstance((1, 2), RET_STRUCT)
+                if not ok:
+                    interp.fail("body-check", f"first use of a fresh name in the body of a {kind} call was rejected")
 
         arg = np.zeros((psize,)) if exit_ != "bad-param" else "not-an-array"
         retval = [None]
@@ -180,16 +194,28 @@ class Interp:
 
                 D(arg, k)
             else:
-                def raw(x: P, k: int) -> P:
-                    body()
+                def retvalue(x):
+                    if retbody is not None:
+                        good = retbody.endswith("good")
+                        return np.zeros((psize, 5 if good else 6)) if retbody.startswith("axis") else ((7, 8) if good else (7, 8, 9))
                     return x if exit_ != "bad-return" else np.zeros((psize + 1, 2))
+
+                RET = P if retbody is None else (RET_AXIS if retbody.startswith("axis") else RET_STRUCT)
+
+                def raw(x, k):
+                    body()
+                    return retvalue(x)
+
+                raw.__annotations__ = {"x": P, "k": int, "return": RET}
 
                 if kind == "method":
                     class K:
-                        @jaxtyped(typechecker=gc.checker("typeguard"))
-                        def m(self, x: P, k: int) -> P:
+                        def m(self, x, k):
                             body()
-                            return x if exit_ != "bad-return" else np.zeros((psize + 1, 2))
+                            return retvalue(x)
+
+                        m.__annotations__ = {"x": P, "k": int, "return": RET}
+                        m = jaxtyped(typechecker=gc.checker("typeguard"))(m)
 
                     fn = K().m
                 else:
@@ -223,7 +249,14 @@ class Interp:
         where = f"after {kind} call (exit={exit_}{'/' + n['exc'] if exit_ == 'exc' else ''}, psize={psize}) at depth {depth_before}"
         if isinstance(outcome, Violation):
             raise outcome
-        if exit_ == "return":
+        if retbody is not None and retbody.endswith("bad"):
+            if not isinstance(outcome, TypeCheckError):
+                self.fail("call-outcome", f"{where}: the body bound {'axis vfret=5' if retbody.startswith('axis') else 'structure VfS=(*,*)'} by a manual check, the returned value "
+                                          f"contradicts it under the return annotation, expected TypeCheckError, got {outcome if outcome == 'returned' else type(outcome).__name__}")
+            if self.stack:
+                self.stack[-1]["after_exc"] = True
+            self.flags.add("return-annotation-over-body-bound-name")
+        elif exit_ == "return":
             if outcome != "returned":
                 self.fail("call-outcome", f"{where}: expected normal return, got {type(outcome).__name__}: {str(outcome)[:200]}")
         elif exit_ == "exc":
@@ -277,12 +310,17 @@ class Interp:
                 del record[:2]
                 n = dict(n, body=n["body"][1:], advanced=True)
         else:
-            @jaxtyped(typechecker=gc.checker(n["checker"]))
-            async def co(x: P, k: int):
+            async def co(x, k):
                 for c in n["body"]:
                     record.append(obs.verdict(np.zeros((c["size"],)), Shaped[np.ndarray, c["name"]]))
                     record.append(obs.bindings()[0])
+                    if n.get("suspend"):
+                        await _Suspend()  # really suspends: control returns to whoever drives the coroutine
                 return 7
+
+            # with or without a return annotation (a plain one: the coroutine object itself is never checked against it)
+            co.__annotations__ = dict({"x": P, "k": int}, **({"return": int} if n.get("ret_ann") else {}))
+            co = jaxtyped(typechecker=gc.checker(n["checker"]))(co)
 
             obj = co(np.zeros((n["psize"],)), n["k"])
         self.pending.append((kind, obj, record, n))
@@ -296,7 +334,12 @@ class Interp:
                     self.fail("generator-values", f"generator yielded {out}")
             else:
                 try:
-                    obj.send(None)
+                    for _ in range(len(n["body"]) + 1):
+                        obj.send(None)
+                        # suspended: the driver is at top level, nothing is bound and checks are stateless
+                        self.assert_bindings("while a coroutine created by a decorated function is suspended")
+                        if obs.verdict(np.zeros((9,)), P) != "True" or obs.bindings()[0] != {}:
+                            self.fail("generator-context", "a check made at top level while a decorated coroutine is suspended is not stateless")
                     self.fail("coroutine", "coroutine did not finish")
                 except StopIteration as s:
                     if s.value != 7:
@@ -344,6 +387,7 @@ def node_strategy(depth):
         "psize": st.sampled_from([2, 3, 4]), "k": st.sampled_from([1, 2, 3]),
         "body": st.lists(st.fixed_dictionaries({"name": st.sampled_from(["p", "a"]), "size": st.sampled_from([2, 3, 4])}), min_size=1, max_size=3),
         "advance": st.sampled_from([True, False, False]),
+        "suspend": st.sampled_from([True, False]), "ret_ann": st.sampled_from([True, False]),
     })
     if depth <= 0:
         return st.one_of(check, check, hole, gen, failcheck)
@@ -355,6 +399,7 @@ def node_strategy(depth):
         "psize": st.sampled_from([2, 3, 4]),
         "k": st.sampled_from([1, 2, 3]),
         "body": st.lists(st.deferred(lambda: node_strategy(depth - 1)), max_size=4),
+        "retbody": st.sampled_from([None, "axis-bad", None, "struct-bad", "axis-good", None, "struct-good", None]),
     })
     return st.one_of(call, call, call, check, check, hole, gen, failcheck)
 
